@@ -480,12 +480,12 @@ def run_shard(ctx, spec):
 
 
 def plan(tier, seed):
-    frac = 0.34 if tier == "quick" else 1.0
+    frac = 1.0
     specs = [("arr", i, 32, frac) for i in range(32)]
-    specs += [("together", i, 16, 0.5 if tier == "quick" else 1.0) for i in range(16)]
-    n = 2000 if tier == "quick" else 30000
+    specs += [("together", i, 16, 1.0) for i in range(16)]
+    n = 10000 if tier == "quick" else 150000
     specs += [("chains", n // 16, i) for i in range(16)]
-    n = 600 if tier == "quick" else 10000
+    n = 3000 if tier == "quick" else 50000
     specs += [("random", n // 16, i) for i in range(16)]
     return specs
 
@@ -506,6 +506,6 @@ def main(tier, seed):
                   "alias_chain_loops": 50, "lookups_checked": 1000, "random_programs": 100, "together_programs": 200, "bindings_checked_together": 10000},
         assumptions=["first match wins, then its kind is checked (a wrong-kind inner match is an error, the search does not continue)",
                      "carried alias attributes are compared as a multiset after the use site's own attributes"],
-        exhaustive=(tier == "thorough"),
+        exhaustive=True,
         extra_coverage={"exhaustive_space": "6^3 x 2^2 placements of X x 4 referencing modules x %d spellings x %d positions" % (len(SPELLINGS), len(POSITIONS))},
     )
